@@ -95,6 +95,7 @@ async fn c14_async(ctx: &mut Ctx) {
     sw.settle().await;
     let _ = sw.take_events();
     let nreq = 3 + ctx.tape.choose(12);
+    let mut next_bump = 0u8;
     for _ in 0..nreq {
         if ctx.failed() {
             break;
@@ -102,13 +103,28 @@ async fn c14_async(ctx: &mut Ctx) {
         // requester: a table peer (present in its own bucket) or a stranger
         let requester = if ctx.tape.choose(3) == 0 { 150 + ctx.tape.choose(20) as usize } else { *ctx.tape.pick(&peers) };
         let port = if ctx.tape.choose(8) == 0 { 0 } else { 9000 + ctx.tape.choose(3) as u16 };
-        let na = NodeAddress { node_id: peer_id(requester), socket_addr: SocketAddr::new(IpAddr::V4(Ipv4Addr::new(10, 7, 7, 1 + ctx.tape.choose(3) as u8)), port) };
+        // the observed source: an IPv4 address, an IPv6 address or an IPv4-mapped IPv6 address (the last two as
+        // a dual-stack socket reports them); ports from the whole range
+        let port = if port != 0 && ctx.tape.choose(4) == 0 { *ctx.tape.pick(&[1u16, 80, 1023, 30303, 65535]) } else { port };
+        let v4 = Ipv4Addr::new(10, 7, 7, 1 + ctx.tape.choose(3) as u8);
+        let src_ip = match ctx.tape.choose(6) {
+            0 => IpAddr::V6(std::net::Ipv6Addr::new(0xfd00, 0, 0, 0, 0, 0, 7, 1 + ctx.tape.choose(3) as u16)),
+            1 => IpAddr::V6(v4.to_ipv6_mapped()),
+            _ => IpAddr::V4(v4),
+        };
+        let na = NodeAddress { node_id: peer_id(requester), socket_addr: SocketAddr::new(src_ip, port) };
         let idlen = ctx.tape.choose(9) as usize;
         let rid = RequestId((0..idlen).map(|i| (0x40 + i) as u8).collect());
         let is_ping = ctx.tape.choose(4) == 0;
         let _ = answer_pings(&mut sw).await;
         if is_ping {
-            ctx.ev(format!("t={} PING from #{requester} {} id_len={idlen}", now_ms(), na.socket_addr));
+            // the local record sometimes changes first: the PONG must carry the sequence number current then
+            if ctx.tape.choose(4) == 0 {
+                let _ = sw.d.enr_insert("c14", &vec![now_ms() as u8, next_bump]);
+                next_bump = next_bump.wrapping_add(1);
+                ctx.count("local_record_updates");
+            }
+            ctx.ev(format!("t={} PING from #{requester} {} id_len={idlen} (local seq {})", now_ms(), na.socket_addr, sw.d.local_enr().seq()));
             sw.emit(HandlerOut::Request(na.clone(), Box::new(Request { id: rid.clone(), body: RequestBody::Ping { enr_seq: 1 } }))).await;
             sw.settle().await;
             let rest = answer_pings(&mut sw).await;
@@ -315,6 +331,7 @@ async fn c17_async(ctx: &mut Ctx) {
     let rounds = 10 + ctx.tape.choose(60);
     let mut socket_updated_events = 0u64;
     let mut changes_to_some = 0u64;
+    let mut reachable: BTreeMap<usize, bool> = BTreeMap::new();
     for _ in 0..rounds {
         if ctx.failed() {
             break;
@@ -331,6 +348,18 @@ async fn c17_async(ctx: &mut Ctx) {
                 let o = ctx.tape.choose(nc) as usize;
                 opinion.insert(v, o);
                 ctx.fault("voter_changes_vote");
+            }
+            2 => {
+                // a PING goes unanswered: the peer is marked disconnected, its earlier (unexpired) vote stands
+                if !held.is_empty() {
+                    let k = ctx.tape.choose(held.len() as u32) as usize;
+                    let (rid, voter, _) = held.remove(k);
+                    reachable.insert(voter, false);
+                    ctx.fault("voter_stops_answering");
+                    ctx.ev(format!("t={} PING to #{voter} times out", now_ms()));
+                    sw.emit(HandlerOut::RequestFailed(rid, discv5::RequestError::Timeout)).await;
+                    sw.settle().await;
+                }
             }
             _ => {}
         }
@@ -357,8 +386,14 @@ async fn c17_async(ctx: &mut Ctx) {
         sw.emit(HandlerOut::Response(from, Box::new(resp))).await;
         sw.settle().await;
         ctx.ev(format!("t={t} PONG from #{voter} ({}) votes {addr}", if outgoing[&voter] { "outgoing" } else { "incoming" }));
-        if outgoing[&voter] {
+        // a vote counts when the voter is a connected outgoing peer at the moment its PONG arrives; a peer
+        // whose last request failed is disconnected until a PONG of its has been processed
+        let was_reachable = reachable.get(&voter).copied().unwrap_or(true);
+        reachable.insert(voter, true);
+        if outgoing[&voter] && was_reachable {
             votes.insert((voter, addr.is_ipv6()), (addr, t));
+        } else if outgoing[&voter] && dual {
+            incoming_pongs.push((voter, addr, t));
         } else if dual {
             incoming_pongs.push((voter, addr, t));
         }
@@ -514,12 +549,21 @@ async fn c20_async(ctx: &mut Ctx) {
             let req = held.remove(i);
             let id = req.id().0.clone();
             if ctx.tape.choose(3) == 0 {
-                ctx.ev(format!("t={} app drops {}", now_ms(), hex::encode(&id)));
-                ctx.fault("application_drops_request");
+                let panics = ctx.tape.choose(4) == 0;
+                ctx.ev(format!("t={} app {} {}", now_ms(), if panics { "panics while holding" } else { "drops" }, hex::encode(&id)));
+                ctx.fault(if panics { "application_panics_holding_request" } else { "application_drops_request" });
                 if handler_alive {
                     app.insert(id, None);
                 }
-                drop(req);
+                if panics {
+                    // the request object is dropped by the unwinding of the application's own panic
+                    crate::core::with_expected_panic(move || {
+                        let _held = req;
+                        panic!("{}", crate::core::EXPECTED_PANIC);
+                    });
+                } else {
+                    drop(req);
+                }
             } else {
                 // (an explicitly empty payload is a response like any other)
                 let payload = if ctx.tape.choose(4) == 0 { vec![] } else { vec![0xEE, id[1], 1] };
